@@ -111,7 +111,7 @@ CHECKS["C06"] = {
     "required_cells": ["straddle", "aligned", "feat:bits:signed", "feat:bits:enum", "feat:bits:wide",
                        "exh:uint8:<:compiled", "exh:uint8:>:interpreted", "exh:int8:>:compiled",
                        "exh:int8:<:interpreted", "char-units:compiled", "char-units:interpreted", "union-bit-fields",
-                       "single-bit-field-structures", "enum-vs-base-bit-fields", "width-twins:compiled", "width-twins:interpreted",
+                       "single-bit-field-structures", "enum-vs-base-bit-fields", "width-twins:compiled", "width-twins:interpreted", "bit-field-at-an-explicit-offset",
                        "endian-switched-after-load:compiled", "endian-switched-after-load:interpreted"],
     "exhaustive": {"quick": False, "thorough": False},
     "assumptions": ASSUME_COMMON,
